@@ -21,7 +21,7 @@ SPEC = {
     "assumptions": ["vlib/langspec.py stack signatures ('certain' entries)", "vlib/cfg.py forced-branch exploration (calibrated on all golden TEAL)",
                     "vlib/avm.py sanitizers"],
     "min_evaluations": {"quick": 8000, "thorough": 60000},
-    "must_reach": ["abstract_ok", "forced_branches", "routines_analysed", "concrete_runs", "frame_routines", "src_catalogue", "src_recipe", "src_abi", "src_router", "src_corpus", "src_suite", "typed_join_rejected"],
+    "must_reach": ["abstract_ok", "forced_branches", "routines_analysed", "concrete_runs", "frame_routines", "src_catalogue", "src_recipe", "src_abi", "src_router", "src_corpus", "src_suite", "typed_join_rejected", "statement_position_rejected"],
     "shard_timeout": {"quick": 2400, "thorough": 14400},
 }
 
@@ -138,6 +138,7 @@ def run_shard(shard):
     for v in (6, 8, 10):
         history_probe(pt, acc, seen, v)
     typed_join_probes(pt, acc, seen, rng, 60 if shard["tier"] == "quick" else 400)
+    statement_position_probes(pt, acc, seen, rng, 60 if shard["tier"] == "quick" else 400)
     return acc.result()
 
 
@@ -248,6 +249,72 @@ def typed_join_probes(pt, acc, seen, rng, n):
                 acc.violation("runtime_discipline", dict(case, arm=i), "a conditional whose arms have types %s was accepted with declared type %s; taking arm %d fails with %s"
                               % (types, declared, i, r.error), teal=teal[-800:])
                 break
+
+
+def statement_position_probes(pt, acc, seen, rng, n):
+    """Value-producing expressions of every type (uint64, bytes and the anytype sources: state reads, untyped scratch loads, Gload,
+    anytype subroutines) put where a statement is expected - a non-final Seq element, a loop body, an If arm without Else, a later
+    Cond arm after a none arm, a For start/step.  Either the constructor rejects them, or the emitted program must keep the stack
+    balanced (the forced-branch run judges every join and every exit)."""
+    from ..common import PT_ERRORS, reset_globals
+    I, B = pt.Int, pt.Bytes
+    for _ in range(n):
+        reset_globals()
+        version = rng.choice([4, 5, 6, 8, 10])
+        src = rng.choice(["uint", "bytes", "gget", "lget", "sv_any", "gload", "sub_any", "maybe_value"])
+        pos = rng.choice(["seq_nonfinal", "while_body", "for_body", "for_step", "if_then_only", "cond_later_arm", "sub_body_nonfinal"])
+        case = {"source": "statement_position_probe", "value": src, "position": pos, "version": version}
+        try:
+            sv = pt.ScratchVar()  # anytype
+            if src == "uint":
+                e = I(7) + I(1)
+            elif src == "bytes":
+                e = B("xy")
+            elif src == "gget":
+                e = pt.App.globalGet(B("k"))
+            elif src == "lget":
+                e = pt.App.localGet(pt.Txn.sender(), B("k"))
+            elif src == "sv_any":
+                e = sv.load()
+            elif src == "gload":
+                e = pt.ImportScratchValue(0, 3)
+            elif src == "maybe_value":
+                e = pt.App.globalGetEx(I(0), B("k")).value()
+            else:
+                @pt.Subroutine(pt.TealType.anytype)
+                def anyv():
+                    return pt.App.globalGet(B("q"))
+                e = anyv()
+            c = pt.Btoi(pt.Txn.application_args[0])
+            i = pt.ScratchVar(pt.TealType.uint64)
+            pre = [sv.store(I(1))]
+            if pos == "seq_nonfinal":
+                body = pt.Seq(*pre, e, I(1))
+            elif pos == "while_body":
+                body = pt.Seq(*pre, i.store(I(0)), pt.While(i.load() < c).Do(pt.Seq(i.store(i.load() + I(1)), e)), I(1))
+            elif pos == "for_body":
+                body = pt.Seq(*pre, pt.For(i.store(I(0)), i.load() < c, i.store(i.load() + I(1))).Do(e), I(1))
+            elif pos == "for_step":
+                body = pt.Seq(*pre, pt.For(i.store(I(0)), i.load() < c, pt.Seq(i.store(i.load() + I(1)), e)).Do(pt.Pop(I(1))), I(1))
+            elif pos == "if_then_only":
+                body = pt.Seq(*pre, pt.If(c).Then(e), I(1))
+            elif pos == "cond_later_arm":
+                body = pt.Seq(*pre, pt.Cond([c == I(1), pt.Pop(I(2))], [c == I(2), e], [I(1), pt.Pop(I(3))]), I(1))
+            else:
+                @pt.Subroutine(pt.TealType.uint64)
+                def wrap():
+                    return pt.Seq(*pre, e, I(1))
+                body = wrap()
+            teal = pt.compileTeal(body, pt.Mode.Application, version=version, optimize=pt.OptimizeOptions(scratch_slots=False))
+        except PT_ERRORS:
+            acc.counters["statement_position_rejected"] += 1
+            continue
+        except Exception as e2:
+            acc.counters["statement_position_crashed:" + type(e2).__name__] += 1
+            continue
+        acc.evaluations += 1
+        acc.counters["statement_position_accepted"] += 1
+        judge_text(acc, "statement_position_probe", "app", version, teal, case, seen, anytype=True)
 
 
 def check_recipe(acc, probe, recipe, v, mode, opts, ctxs, seen):
